@@ -87,7 +87,8 @@ func (r *Result) violate(sig, what string, replay any) {
 // ChildResult is what a child process reports.
 type ChildResult struct {
 	Pid      int            `json:"pid"`
-	Incs     map[string]int `json:"incs"` // own key -> number of counting updates
+	Updates  int            `json:"updates"` // UpdateFullStatus + UpdateBasicStatus calls that returned without error
+	Incs     map[string]int `json:"incs"`    // own key -> number of counting updates
 	Blinds   int            `json:"blinds"`
 	Loads    int            `json:"loads"`
 	Saves    int            `json:"saves"`
@@ -206,6 +207,7 @@ func childMain(args []string) {
 			key := fmt.Sprintf("a%d_%d", os.Getpid(), g)
 			shared := g%2 == 0 // even goroutines use the process-wide BaseWorkUnit, odd ones a private StatusFileData
 			priv := &workceptor.StatusFileData{}
+			steady := &workceptor.StatusFileData{} // a reporter that repeats one and the same report
 			myIncs, lastC, blinds, loads, saves := 0, 0, 0, 0, 0
 			// check what a read (inside an update or a Load) returned
 			check := func(where string, ed any) {
@@ -277,8 +279,15 @@ func childMain(args []string) {
 					myIncs++
 					lastC++ // at least our own increment
 				case r < 65:
+					// every other blind update REPEATS this writer's previous values (the periodic "still running"
+					// report of a runner): it must be applied all the same, others have changed the record meanwhile
 					detail := fmt.Sprintf("%s#%d", key, k)
-					if shared {
+					if blinds%2 == 1 {
+						// the reporter object only ever sends this one report, like the runner's private status object
+						if e := steady.UpdateBasicStatus(statusFile, workceptor.WorkStateRunning, key+"#steady", -1); e != nil {
+							problem("C14:torn-read", fmt.Sprintf("%s: UpdateBasicStatus failed: %v", key, e))
+						}
+					} else if shared {
 						bwu.UpdateBasicStatus(workceptor.WorkStateRunning, detail, int64(k))
 						if e := bwu.LastUpdateError(); e != nil {
 							problem("C14:torn-read", fmt.Sprintf("%s: UpdateBasicStatus failed: %v", key, e))
@@ -312,6 +321,7 @@ func childMain(args []string) {
 			}
 			mu.Lock()
 			res.Incs[key] = myIncs
+			res.Updates += myIncs + blinds
 			res.Blinds += blinds
 			res.Loads += loads
 			res.Saves += saves
@@ -472,6 +482,7 @@ func runConfig(res *Result, base string, name string, procs, gor, ops int, seed 
 	}
 	// collect child reports
 	want := map[string]int{}
+	updatesByPid := map[int]int{}
 	total := 0
 	for _, c := range kids {
 		b, err := os.ReadFile(filepath.Join(dir, fmt.Sprintf("child_%d.json", c.idx)))
@@ -485,6 +496,7 @@ func runConfig(res *Result, base string, name string, procs, gor, ops int, seed 
 			want[k] = v
 			total += v
 		}
+		updatesByPid[cr.Pid] = cr.Updates
 		info.Incs += sumMap(cr.Incs)
 		info.Blinds += cr.Blinds
 		info.Loads += cr.Loads
@@ -540,6 +552,21 @@ func runConfig(res *Result, base string, name string, procs, gor, ops int, seed 
 				info.Switches++
 			}
 			last = n.A
+		}
+	}
+	// every update call is one lock section with an apply step: a call that returned nil without having been applied
+	// to the stored record is a lost update even if nobody notices the missing values
+	applies := map[int]int{}
+	for _, e := range ft.Raw {
+		if e.Str("ev") == "sf_apply" {
+			applies[int(e.Int("p"))]++
+		}
+	}
+	for pid, n := range updatesByPid {
+		if applies[pid] != n {
+			res.violate("C14:update-skipped", fmt.Sprintf("[%s %s] process %d made %d update calls that returned without error, but only %d of them were applied to the stored record (no lock section, no rewrite)",
+				name, mode, pid, n, applies[pid]), map[string]any{"config": name, "mode": mode, "seed": seed, "ops": ops, "jitter": jitter})
+			info.Problems = append(info.Problems, "C14:update-skipped")
 		}
 	}
 	for _, p := range sftrace.Accept(ft, mode == "rmw") {
